@@ -11,7 +11,7 @@ def Out.needsHs : Out → Bool
 
 /-- a PDU written around the TLS layer -/
 def Out.isClear : Out → Bool
-  | .tx false _ _ => true
+  | .tx false _ _ _ => true
   | _ => false
 
 def Out.isMark : Out → Bool
@@ -276,7 +276,7 @@ theorem sndResult_inv (h : Inv m0 b c) : Inv m0 b c.sndResult := by
   · exact inv_setRet _ h'
 
 /-- writing a PDU through the TLS layer is acceptable once the oracle has reported success -/
-theorem inv_emit_tx (v : View) (sn : Option Nat) (h : Inv m0 true c) : Inv m0 true (c.emit (.tx true v sn)) := by
+theorem inv_emit_tx (v : View) (sn : Option Nat) (cnt : Nat) (h : Inv m0 true c) : Inv m0 true (c.emit (.tx true v sn cnt)) := by
   obtain ⟨h1, h2, h3, h4, h5⟩ := h
   have := h4 rfl
   inv_simp
@@ -290,7 +290,7 @@ theorem inv_emit_handler (o : Out) (ho : o.isClear = false) (hm : o.isMark = fal
 theorem dtlsSendCore_inv (m : QMsg) (ack : Bool) (h : Inv m0 true c) : Inv m0 true (c.dtlsSendCore m ack) := by
   unfold Ctx.dtlsSendCore
   simp only
-  have h1 := inv_upd (fun s => { s with dtlsEvent := none }) (by simp) (by simp) (by simp) (inv_emit_tx (m.view ack) (m.snOf ack) h)
+  have h1 := inv_upd (fun s => { s with dtlsEvent := none }) (by simp) (by simp) (by simp) (inv_emit_tx (m.view ack) (m.snOf ack) m.cnt h)
   split
   · exact sndResult_inv h1
   · have h2 := doHandshake_inv h1
@@ -325,7 +325,7 @@ theorem tlsTail_inv (h : Inv m0 b c) : Inv m0 b c.tlsTail := by
 theorem tlsRecordSend_inv (m : QMsg) (ack : Bool) (h : Inv m0 true c) : Inv m0 true (c.tlsRecordSend m ack) := by
   unfold Ctx.tlsRecordSend
   simp only
-  have h1 := popSnd_inv (inv_upd (fun s => { s with dtlsEvent := none }) (by simp) (by simp) (by simp) (inv_emit_tx m.strmView (m.snOf ack) h))
+  have h1 := popSnd_inv (inv_upd (fun s => { s with dtlsEvent := none }) (by simp) (by simp) (by simp) (inv_emit_tx m.strmView (m.snOf ack) m.cnt h))
   apply tlsTail_inv
   split
   · exact inv_setRet _ h1
@@ -355,7 +355,7 @@ theorem tlsWrite_inv (m : QMsg) (ack : Bool) (h : Inv m0 true c) : Inv m0 true (
   unfold Ctx.tlsWrite
   refine inv_ite (fun _ => tlsRecordSend_inv m ack h) fun _ => ?_
   simp only
-  have h1 := doHandshake_inv (inv_upd (fun s => { s with dtlsEvent := none }) (by simp) (by simp) (by simp) (inv_emit_tx m.strmView (m.snOf ack) h))
+  have h1 := doHandshake_inv (inv_upd (fun s => { s with dtlsEvent := none }) (by simp) (by simp) (by simp) (inv_emit_tx m.strmView (m.snOf ack) m.cnt h))
   apply tlsTail_inv
   exact inv_ite (fun _ => inv_setRet _ (sendCsm_inv (inv_emit_inert _ rfl h1))) fun _ => inv_setRet _ h1
 
